@@ -14,6 +14,8 @@ from __future__ import annotations
 from .common import *  # noqa: F401,F403
 
 FS_SORT = z3.ArraySort(z3.StringSort(), z3.IntSort())
+STAT_M = z3.Function("stat_mtime_ns", z3.StringSort(), z3.IntSort(), z3.IntSort())
+STAT_S = z3.Function("stat_size", z3.StringSort(), z3.IntSort(), z3.IntSort())
 content_of = z3.Function("content_of", z3.IntSort(), z3.IntSort())       # content id of a data object (never 0)
 
 
@@ -51,7 +53,7 @@ def _join(a, b):
 
 def path_attr(ex, obj, name, fr):
     t = obj.info["text"]
-    if name in ("joinpath", "resolve", "exists", "mkdir", "expanduser", "is_file", "with_suffix"):
+    if name in ("joinpath", "resolve", "exists", "mkdir", "expanduser", "is_file", "with_suffix", "stat"):
         return VLib("path." + name, obj)
     if name in ("suffix", "stem", "name", "parent"):
         h = ex.cfg.lib_overrides.get(("path_part", name))
@@ -90,6 +92,13 @@ def install(cfg: Cfg):
         ex.st.ghost["FS"] = z3.Store(before, p, z3.If(z3.Select(before, p) != 0, z3.Select(before, p), z3.IntVal(1)))
         ex.st.events.append(("mkdir", p, before, ok is True))
         return NONE
+    # stat(): (st_mtime_ns, st_size) are ghost functions of (path, rewrite epoch of the file system)
+    def stat(ex, f, args, kwargs, fr):
+        return VOpaque("statres", None, {"text": path_text(f.self_val), "epoch": ex.st.ghost.get("FILE_EPOCH", z3.IntVal(0))})
+    cfg.lib_overrides["path.stat"] = stat
+    cfg.lib_overrides[("opaque_attr", "statres")] = lambda ex, obj, name, fr: VInt({"st_mtime_ns": STAT_M, "st_size": STAT_S}[name](obj.info["text"], obj.info["epoch"])) \
+        if name in ("st_mtime_ns", "st_size") else ex.throw("AttributeError", name)
+    cfg.lib_overrides[("str_of", "path")] = lambda ex, v: VStr(path_text(v))
     cfg.lib_overrides["path.exists"] = exists
     cfg.lib_overrides["path.mkdir"] = mkdir
     cfg.lib_overrides[("format_path",)] = lambda ex, v: path_text(v)
